@@ -93,6 +93,10 @@ func c06Run(job, tier string, deadline time.Time) *engine.Result {
 				}
 				payloads = append(payloads, c11Data(byte(l), l))
 			}
+			// around the 16-bit length limits: either no packet leaves or its length fields are true
+			for _, l := range []int{1473, 2000, 65486, 65487, 65488, 65506, 65507, 65508, 65509, 65526, 65527, 65528, 65535} {
+				payloads = append(payloads, c11Data(byte(l), l))
+			}
 		}
 		c := c11NewWorld()
 		k := c11Kind{fam, "conn", "any"}
